@@ -197,6 +197,46 @@ theorem T_C05_corner_table :
       (decide (s ∈ CBV.Gen.c05CornerSides.getD c [])) = bmOnSide s c ∧
       (decide (s ∈ patchesAtCorner probeOp c)) = bmOnSide s c := by decide
 
+/-! ### histories: merges declared at different times, re-assembly -/
+
+/-- **T_C05_history.** Whatever happened before (`h`: earlier assemblies, queries of the slave set,
+    clears, …): after `clear`, further declarations `mid` and a new `assemble`, the vertex list and
+    the blocks are those of a fresh assembly of *all* operations added so far with *all* pairs merged so
+    far — nothing of an earlier assembly (no cached slave set, no stale registry) survives. -/
+theorem T_C05_history (h mid : List (Step P N)) (hm : noAssemble mid = true) :
+    (runHist close {} (h ++ [Step.clear] ++ mid ++ [Step.assemble])).2.getLast? =
+      some (assemble close (slavePatches (mergesOf (h ++ mid))) {} (addsOf (h ++ mid))) :=
+  runHist_reassemble close h mid hm
+
+/-- … hence `T_C05_key` (and its consequences) hold after every re-assembly, with the slave patches
+    of all pairs merged so far. -/
+theorem T_C05_history_key {S : P → Prop} (hc : CloseEquivOn close S) (h mid : List (Step P N))
+    (hm : noAssemble mid = true) (hS : ∀ op ∈ addsOf (h ++ mid), ∀ p ∈ op.pts, S p)
+    (vl : VList P N) (blocks : List (List (Vertex P)))
+    (hr : (runHist close {} (h ++ [Step.clear] ++ mid ++ [Step.assemble])).2.getLast? = some (vl, blocks))
+    (i j c₁ c₂ : Nat) (o₁ o₂ : Op P N) (p₁ p₂ : P) (v₁ v₂ : Vertex P)
+    (ho₁ : (addsOf (h ++ mid))[i]? = some o₁) (ho₂ : (addsOf (h ++ mid))[j]? = some o₂)
+    (hp₁ : o₁.pts[c₁]? = some p₁) (hp₂ : o₂.pts[c₂]? = some p₂)
+    (hv₁ : vertexAt blocks i c₁ = some v₁) (hv₂ : vertexAt blocks j c₂ = some v₂) :
+    v₁.index = v₂.index ↔
+      (close p₁ p₂ = true ∧ ∀ n, n ∈ slaveSet (slavePatches (mergesOf (h ++ mid))) o₁ c₁ ↔
+        n ∈ slaveSet (slavePatches (mergesOf (h ++ mid))) o₂ c₂) := by
+  rw [T_C05_history close h mid hm, Option.some.injEq] at hr
+  have hb : blocks = (assemble close (slavePatches (mergesOf (h ++ mid))) {} (addsOf (h ++ mid))).2 := by rw [hr]
+  subst hb
+  exact T_C05_key close hc _ _ hS i j c₁ c₂ o₁ o₂ p₁ p₂ v₁ v₂ ho₁ ho₂ hp₁ hp₂ hv₁ hv₂
+
+/-- merge (m1,s1) → assemble → clear → merge (m2,s2) → assemble: the second assembly duplicates the
+    corners of *both* slave patches (cell 2 carries s1 on its left and m2 on its right, cell 3 carries s2) -/
+def sampleHist : List (Step Nat String) :=
+  [.add { pts := [0, 1, 2, 3, 4, 5, 6, 7], sides := [none, some "m1", none, none] },
+   .add { pts := [1, 8, 9, 2, 5, 10, 11, 6], sides := [none, some "m2", none, some "s1"] },
+   .add { pts := [8, 12, 13, 9, 10, 14, 15, 11], sides := [none, none, none, some "s2"] },
+   .merge "m1" "s1", .assemble, .query, .clear, .merge "m2" "s2", .assemble]
+
+example : ((runHist (fun (a b : Nat) => a == b) {} sampleHist).2.map (fun r => r.1.vertices.length)) = [20, 24] := by
+  decide
+
 /-! ### non-vacuity -/
 
 /-- the hypothesis `CloseEquivOn closeV3 S` is satisfiable for the real tolerance test on a point
